@@ -50,6 +50,16 @@ std::vector<CheckDef>& check_table()
 		  "blocksize or hashsize changed in the configuration, a recorded disk dropped from it. Refusal = non-zero exit with content and parity byte-identical (absent parity == empty); with the override (or the configuration restored) the sync proceeds, the parity oracle holds and diff is clean. "
 		  "Lock: command A (sync/scrub/fix/check) is parked at mutation index k by the file layer (k=1,2 and seeded others; thorough 12 points), command B of every kind runs to completion as a second process, A resumes: whenever A's trace shows the lock held, B must fail with the 'already in use' diagnostic "
 		  "and issue no mutating call, A ends as when alone, and B is not refused afterwards. Non-trivial = every trigger judged and every pair in which B ran while the lock was held" },
+		{ "C15", "exploration", { { "scrubplan", 3000, 60000 } },
+		  "per-stripe check times are produced by history on the simulated clock (waves of files synced days apart, within and across the 8 second granularity, ties, partial syncs and scrubs, a clock stepping backwards), bad marks by injected silent errors, unsynced stripes by files changed after the sync; "
+		  "then scrub with plan bad / new / full / default / percentage with and without -o, and scrub -> fix -e -> scrub -p bad. The verified set V is read off the io.c hand-over trace. Predicates: bad in V for every plan; full = all stripes with info; new = exactly the never-scrubbed ones; "
+		  "percentage: none younger than the age limit, |V minus bad| <= ceil(p*blockmax/100) (default ceil(blockmax/12), 10 days), oldest first, something verified when eligible; books: time refreshed to now and marks cleared exactly on stripes verified correct, bad exactly on silent errors, "
+		  "stripes that only differ by files changed since the sync untouched, unverified stripes untouched, data and parity untouched; liveness: 13 default scrubs 11 days apart cover every used stripe. Non-trivial = a scrub that verified at least one stripe" },
+		{ "C10", "exploration", { { "roundtrip", 1500, 30000 } },
+		  "after every command of seeded histories (sync variants incl. partial / killed-after-parity / autosave, scrub, touch, hash migration, copy/move/undelete idioms, silent damage giving bad marks; hash sizes 16/8/4/2; formats 2 and 3) with the clock frozen: "
+		  "(1) test-rewrite reproduces every content copy byte for byte; (2) the independent decoder's view (files with size/stamp/inode, links, per-stripe used/unsynced/bad/rehash/time) equals list -l and status -G -l; (3) loading from each copy alone gives the same dumps; "
+		  "(4) content files synthesised by the independent encoder from a reached state with values at varint boundaries (inodes up to 2^64-1, seconds up to 2^63-1, nsec 0/invalid/999999999, free/total blocks up to 2^32-1, block runs moved to positions 127..2097152 giving long hole runs) are rewritten byte for byte - "
+		  "part (4) is plain input generation, no schedule or fault is involved. Non-trivial = every reached state judged; distinct = distinct content file bytes" },
 		{ "C06", "exploration", { { "parity-inv", 4000, 80000 }, { "crash", 16, 400 } },
 		  "seeded histories of file-system changes interleaved with sync variants/scrub/fix/touch/rehash/check under seeded schedules; the independent parity oracle runs after every command. "
 		  "A run is non-trivial when at least one fully synced stripe was compared with parity and >= 3 commands ran; distinct = distinct (config, op sequence) hashes" },
